@@ -340,3 +340,31 @@ fn f13_terminal_call_after_failed_open() {
     let terminals = v.iter().filter(|e| ["complete", "error", "interrupted"].contains(e)).count();
     assert!(terminals <= 1, "more than one terminal call: {:?}", v);
 }
+
+// ---- F33 (C02/C16): FDT-only OTI, every packet of the object received before the first complete FDT: the packet cache is replayed
+// last-in-first-out, so the B-flagged last packet is replayed first and interrupts an object whose symbols are all there ------------
+#[test]
+fn f33_cache_replayed_in_reception_order() {
+    let mut oti = flute::core::Oti::new_no_code(64, 4);
+    oti.inband_fti = false;
+    let mut s = sender_with(&oti, &Default::default());
+    let data: Vec<u8> = (0..1000u32).map(|i| (i % 251) as u8).collect();
+    s.add_object(0, obj(data.clone(), "file:///late-fdt", Default::default())).unwrap();
+    let now = SystemTime::now();
+    s.publish(now).unwrap();
+    let pkts = all_packets(&mut s, now);
+    let (fdt, object): (Vec<_>, Vec<_>) = pkts.iter().cloned().partition(|p| is_fdt(p));
+    assert!(!fdt.is_empty() && object.len() > 2);
+    let (mut r, w) = receiver();
+    // the first copy of the FDT is lost; the object is received in full; then a later copy of the same FDT instance arrives
+    for p in &object {
+        r.push(&endpoint(), p, now).unwrap();
+    }
+    for p in &fdt {
+        r.push(&endpoint(), p, now).unwrap();
+    }
+    let objs = w.objects.borrow();
+    let done = objs.iter().find(|o| o.borrow().complete).map(|o| o.borrow().data.clone());
+    assert_eq!(done.as_deref(), Some(&data[..]), "all symbols and the FDT were received, the object must be delivered ({} writer(s), errors: {:?})",
+               objs.len(), objs.iter().map(|o| o.borrow().error).collect::<Vec<_>>());
+}
